@@ -42,6 +42,7 @@ std::string gen_melee_fen(Rng& r);
 PosSpec gen_evasion_family(Rng& r);
 std::string gen_corner_zugzwang_fen(Rng& r);
 std::string gen_wide_fen(Rng& r);
+PosSpec gen_castle_lookalike(Rng& r);
 
 }  // namespace sim
 #endif
